@@ -1,5 +1,5 @@
 (* Extract.v — extraction of the executable model to OCaml (ExtrOcamlBasic only). *)
-Require Import Base Utf8 Width Attrs Cell Row Grid Screen Vte Perform Parser Term Emit.
+Require Import Base Utf8 Width Attrs Cell Row Grid Screen Vte Perform Parser Term Emit Fingerprint.
 Require Extraction.
 Require Import ExtrOcamlBasic.
 Extraction Language OCaml.
@@ -12,4 +12,4 @@ Extraction "model.ml"
   contents_formatted_t contents_diff_t state_formatted_t state_diff_t
   input_mode_formatted_t input_mode_diff_t attributes_formatted_t cursor_state_formatted_t
   rows_formatted_t rows_diff_t contents_text rows_text contents_between
-  cell_eqb cell_new attrs_eqb dflt.
+  cell_eqb cell_new attrs_eqb dflt fp_case.
